@@ -129,6 +129,17 @@ def run(ctx):
                 b = bytes([t, 0, 0, 0]) + word + bytes(rng.randrange(256) for _ in range(plen))
                 scripts.append(('ic%d' % k, ['parse %s x%s' % (ent, b.hex()), 'ser', 'view', 'rt ' + ent]))
                 k += 1
+    # RadioTap headers whose FLAGS field announces a frame check sequence, followed by 0..14 octets (nothing, less than an FCS,
+    # exactly an FCS and no frame, a short frame + FCS): what is accepted must come back byte for byte
+    for j in range(60 if quick else 600):
+        fl = rng.choice([0x10, 0x10, 0x12, 0x50, 0x00])
+        hdr = rng.choice([bytes([0, 0, 9, 0, 2, 0, 0, 0, fl]),
+                          bytes([0, 0, 17, 0, 3, 0, 0, 0]) + bytes(8) + bytes([fl]),
+                          bytes([0, 0, 10, 0, 6, 0, 0, 0, fl, 12])])
+        tail = bytes(rng.randrange(256) for _ in range(rng.choice([0, 1, 3, 4, 4, 5, 8, 10, 14])))
+        if rng.random() < 0.5 and len(tail) >= 4:
+            tail = bytes([0xd4, 0]) + tail[2:]          # an 802.11 ACK-like control frame start
+        scripts.append(('rf%d' % j, ['parse RadioTap x' + (hdr + tail).hex(), 'ser', 'view', 'rt RadioTap']))
     # ICMP / ICMPv6 error messages carrying an RFC 4884 extension structure (own encoder: quoted datagram padded to the length
     # attribute, header with version 2 and checksum, objects with payloads of every length 0..9): objects must come back unchanged
     import dissect as _D
